@@ -434,25 +434,40 @@ def u_overlay_enter_exit(c):
     if had:
         c.prove("enter/previous-collection-not-modified", prev.fields["handler_pairs"] is prev_pairs)
     # LIFO exit: the collection this overlay installed is still the current one
-    lifo = c.choose(2)
-    if lifo == 0:
-        c.cover("lifo")
-        st, _ = run(it, it.getattr(ov, "__exit__"), [None, None, None])
-        c.prove("exit/no-raise", st == "ok")
-        c.prove("exit/LIFO-restores-previous", var.value is prev)
-    else:
-        # non-LIFO: another overlay Y was activated afterwards and is still active: current = cur ++ ypairs
-        c.cover("non-lifo")
-        ypairs = z3.Const("ypairs_t", Log)
-        later = mk_obj(it, O, "HandlerCollection", handler_pairs=ListTerm(log_cat(want, ypairs)))
-        var.value = later
-        st, _ = run(it, it.getattr(ov, "__exit__"), [None, None, None])
-        c.prove("exit/no-raise", st == "ok")
-        after = var.value
-        exp = log_cat(oldpairs_t, ypairs) if had else ypairs
-        ok = isinstance(after, Obj) and after.cls is HC
-        c.prove("exit/non-LIFO-removes-exactly-own-handlers",
-                ok and it.models.listterm_of(it, after.fields["handler_pairs"]) == exp, only=["C05"])
+    c.cover("lifo")
+    st, _ = run(it, it.getattr(ov, "__exit__"), [None, None, None])
+    c.prove("exit/no-raise", st == "ok")
+    c.prove("exit/LIFO-restores-previous", var.value is prev)
+
+
+@unit("BaseOverlay.exit-nonlifo", ["C05"], [O + ":BaseOverlay.__enter__", O + ":BaseOverlay.__exit__", O + ":HandlerCollection.plus"], mode="bounded",
+      bound="overlay with 1-2 handlers, 0-1 pairs installed before it, 1-2 pairs installed after it (all orders of exit)")
+def u_overlay_exit_nonlifo(c):
+    """Exit in any order: when the current collection is not the one this overlay installed (another overlay was activated
+    afterwards and is still active), __exit__ leaves exactly the pairs that were current minus its own, in order; the
+    overlay activated later can then exit as well and leaves what was there before both."""
+    it = Interp(c)
+    HC, var = _current_var(it)
+    mkh = lambda nm: SymObj(nm, Val.ref(z3.IntVal(c.new_id())), attrs={"selector": SymObj("sel_" + nm, Val.ref(z3.IntVal(c.new_id())))})
+    own = [mkh(f"own{i}") for i in range(1 + c.choose(2, "own"))]
+    later_h = [mkh(f"later{i}") for i in range(1 + c.choose(2, "later"))]
+    had = c.choose(2, "previous")
+    prev_pair = (SymObj("psel", Val.ref(z3.IntVal(c.new_id()))), mkh("prev"))
+    prev = mk_obj(it, O, "HandlerCollection", handler_pairs=[prev_pair]) if had else None
+    var.value = prev
+    ov1 = mk_obj(it, O, "BaseOverlay", handlers=list(own))
+    ov2 = mk_obj(it, O, "BaseOverlay", handlers=list(later_h))
+    run(it, it.getattr(ov1, "__enter__"), [])
+    run(it, it.getattr(ov2, "__enter__"), [])
+    pairs = lambda: [] if var.value is None else list(var.value.fields["handler_pairs"])
+    ids = lambda ps: [id(p[1]) for p in ps]
+    c.prove("enter/both-installed-in-order", ids(pairs()) == ([id(prev_pair[1])] if had else []) + [id(h) for h in own + later_h])
+    st, _ = run(it, it.getattr(ov1, "__exit__"), [None, None, None])  # the FIRST one leaves first
+    c.prove("exit/no-raise", st == "ok")
+    c.prove("exit/non-LIFO-removes-exactly-own-handlers", ids(pairs()) == ([id(prev_pair[1])] if had else []) + [id(h) for h in later_h])
+    st, _ = run(it, it.getattr(ov2, "__exit__"), [None, None, None])
+    c.prove("exit/second-exit-leaves-what-was-there-before-both", st == "ok" and ids(pairs()) == ([id(prev_pair[1])] if had else []))
+    c.prove("frame/previous-collection-object-untouched", (not had) or prev.fields["handler_pairs"] == [prev_pair])
 
 
 ev_proceed = z3.Function("ev_proceed", Val, Val, Val)
